@@ -62,6 +62,10 @@ CHECKS = [
          technique='TLA+ LineFormat.tla over character behaviour classes whose reader constants (what the input filter rejects, what each of the four readers splits on / strips) are measured from the real functions on every run; TLC checks the round-trip invariant for every accepted value up to the bound and predicts violations; real trainings with every accepted special character in every position and encoding are loaded by the real guesser loader, scorer loader, OMEN loader and OmenScorer and compared record by record with the LF-only neutral reading by TLC (TrLine), plus config.ini file lists vs files present',
          text='The class partition covers all 0x110000 code points; the model is exhaustive over class strings given the measured reader behaviour; the verdict comes from real write/read round trips through all four loaders in utf-8, iso-8859-1, cp1251 and utf-16.',
          note='Reader behaviour is measured on every member of the small classes and on sampled members of ORD/NONBMP. The neutral reader (LF-only, last TAB) is the statement of what the format means.'),
+    dict(pid='C19', cat=MC, design='5/C19',
+         technique='TLA+ Reader.tla (records over character classes, codec physical-line splitting, count prefix, $HEX[], check_valid, yield n times) model-checked by TLC: every encoding of every file in bound yields the sequence the file means; every single-record file of the model space and random multi-record files are instantiated (utf-8, iso-8859-1, cp1251) as plain / CRLF / hex / count-prefixed / count+hex / mixed files and read by the real TrainerFileInput (three passes); TLC compares the yielded sequences (TrLine seq) and whole real trainings file by file (TrLine same)',
+         text='Equivalence of encodings and non-leakage of skipped records is exhaustive on the model and checked on the real reader for the same space; ruleset identity is checked on real trainings of plain vs hex vs count-prefixed lists.',
+         note='The meaning of a generated record (valid / skipped) is fixed by construction. Control characters generated: C0, NEL, LS, PS (DEL / C1 are not claimed). Digests computed in Python.'),
 ]
 
 NOT_YET = {
